@@ -68,7 +68,7 @@ def positions(root):
 ELEM_FAULTS = ['delete', 'duplicate', 'empty', 'swap']
 ATTR_FAULTS = ['delete', 'empty', 'junk']
 TEXT_FAULTS = ['delete', 'junk', 'unbalanced', 'typeref-ancestor', 'typeref-self']
-HREF_FAULTS = ['missing', 'self', 'ancestor', 'nohash']
+HREF_FAULTS = ['missing', 'self', 'ancestor', 'nohash', 'bad-scheme', 'colon-first', 'double-hash', 'blank-inside', 'percent']
 
 
 def faults_of(site):
@@ -161,8 +161,14 @@ def apply_fault(root, site, fault):
             if not outer:
                 return None
             e.attrib[a] = '#' + outer
-        else:
+        elif fault == 'nohash':
             e.attrib[a] = e.attrib[a].lstrip('#')
+        else:
+            # texts that are not references at all (a first segment that looks like a scheme with a character no scheme may hold made the
+            # uriparse crate panic: fixed in /repo 7fa1d0d), a colon in the first segment, two fragments, a blank, a broken percent escape
+            cur = e.attrib[a]
+            e.attrib[a] = {'bad-scheme': "htt'p://example.com/x" + cur, 'colon-first': ':' + cur.lstrip('#'), 'double-hash': cur + '#again',
+                           'blank-inside': cur[:2] + ' ' + cur[2:], 'percent': cur + '%zz'}[fault]
     return r
 
 
